@@ -51,12 +51,17 @@ def generate(rng, tier):
                         s.add("clone %s %s" % (u, v), tag="clone")
                     unws[v] = set(unws[u])
         out.append(("gens-%s-%d" % (arch, rep), s))
+    # what the identities are for: two unwinders with different modules at one address, one cache, any address
+    from props import C06
+    for bi, b in enumerate(C06.HIGH_BASES):
+        out.append(C06.two_unwinders(rng, "x86" if bi % 2 == 0 else "a64", b, "two-%d" % bi))
     return out
 
 def judge(script, impl):
     """Sequential: identities handed out by new/add/remove-known are pairwise distinct; clone and
     remove-unknown hand out nothing new."""
-    bad = []
+    from props import C06
+    bad = list(C06.judge(script, impl))
     seen = {}
     cur = {}
     for ln in sorted(impl):
